@@ -48,9 +48,21 @@ def check(case):
     def margin(name, err, tol):
         margins[name] = max(margins.get(name, 0.0), float(err) / tol)
 
+    # cap_Bp_ylow_xpoint is a documented 'fudge': Bpxy_ylow on the y-face next to an X-point is
+    # raised to the smaller of the two neighbouring cell-centre values, deliberately leaving the
+    # physical field there (and Bxy_ylow untouched). Those faces are exempt from the magnitude
+    # clauses, but may only have been *raised*.
+    capped = numpy.zeros(nc["Rxy_ylow"].shape, dtype=bool)
+    if side["mesh_options"].get("cap_Bp_ylow_xpoint"):
+        for rid, reg in side["regions"].items():
+            if any(p is not None for p in reg["xp_start"]):
+                (xs, xe), (ys, ye) = side["region_indices"][rid]
+                capped[xs:xe, ys] = True
+        hist.append("cap_Bp_ylow_xpoint/faces-exempt=%d" % int(capped.sum()))
     sign_votes = []
     for suffix in ("", "_xlow", "_ylow"):
         R, Z = nc["Rxy" + suffix], nc["Zxy" + suffix]
+        ex = capped if suffix == "_ylow" else numpy.zeros(R.shape, dtype=bool)
         dR, dZ = ref.dR(R, Z), ref.dZ(R, Z)
         Br, Bz = dZ / R, -dR / R
         bscale = float(numpy.max(numpy.hypot(Br, Bz))) + 1e-300
@@ -63,7 +75,10 @@ def check(case):
         if e2 > tol:
             fail("C03/Bzxy" + suffix, {"max_abs_err": float(e2), "tol": tol})
         Bp = nc["Bpxy" + suffix]
-        e3 = numpy.abs(numpy.abs(Bp) - numpy.hypot(nc["Brxy" + suffix], nc["Bzxy" + suffix])).max()
+        d3 = numpy.abs(Bp) - numpy.hypot(nc["Brxy" + suffix], nc["Bzxy" + suffix])
+        e3 = numpy.abs(numpy.where(ex, 0.0, d3)).max()
+        if ex.any() and float(numpy.min(numpy.where(ex, d3, 0.0))) < -tol:
+            fail("C03/Bpxy-capped-below-field" + suffix, {"min_diff": float(numpy.min(numpy.where(ex, d3, 0.0)))})
         margin("|Bp|", e3, tol)
         if e3 > tol:
             fail("C03/Bpxy-magnitude" + suffix, {"max_abs_err": float(e3), "tol": tol})
@@ -81,7 +96,7 @@ def check(case):
                 "C03/Btxy" + suffix,
                 {"max_abs_err": float(e4), "tol": tolt, "got": float(nc["Btxy" + suffix][i, j]), "want": float(Bt[i, j]), "psi": float(psi_here[i, j])},
             )
-        e5 = numpy.abs(nc["Bxy" + suffix] - numpy.sqrt(nc["Bpxy" + suffix] ** 2 + nc["Btxy" + suffix] ** 2)).max()
+        e5 = numpy.where(ex, 0.0, numpy.abs(nc["Bxy" + suffix] - numpy.sqrt(nc["Bpxy" + suffix] ** 2 + nc["Btxy" + suffix] ** 2))).max()
         margin("B", e5, 1e-12 * (bscale + tscale))
         if e5 > 1e-12 * (bscale + tscale):
             fail("C03/Bxy" + suffix, {"max_abs_err": float(e5)})
